@@ -38,6 +38,10 @@ impl ValidUntil {
     pub fn new_raw(inner: SecondsSinceServerStart) -> Self {
         Self(inner)
     }
+    #[cfg(aquatic_verif)]
+    pub fn verif_get(&self) -> u32 {
+        self.0 .0
+    }
 }
 
 #[derive(Debug, Clone, Copy)]
